@@ -122,13 +122,14 @@ CHECKS["C12"] = dict(
   technique="Coq proof (case analysis over all fault positions) + exhaustive fault-position correspondence", design="6/C12")
 
 CHECKS["C18"] = dict(
-  text="Coq theorems: base64 round-trips EVERY byte string; ciphertext || tag(16) || nonce(12) splits back uniquely for every ciphertext (incl. the 28-byte empty plaintext); key ids determine the partition. "
+  text="Coq theorems: base64 round-trips EVERY byte string; ciphertext || tag(16) || nonce(12) splits back uniquely for every ciphertext (incl. the 28-byte empty plaintext); key ids determine the partition; a READER written from the documented JSON shape recovers every key record and every data row record (ids any bytes, stamps any integer, keys/data any bytes, optional parts) "
+       "from the documented-shape printer's output, so the shape is unambiguous (Format/JsonParse.v; all 256 escaped characters and every decimal stamp read back). "
        "The documented JSON shape is an executable printer (field order, omitempty, base64, Go's HTML-safe escaping); the SDK's JSON for key records and data row records is compared with it byte for byte inside Coq; "
        "the SQL key_record equals that JSON; both DynamoDB item layouts are checked against the documented attribute layout; an independent codec written from the documentation decrypts what the SDK writes and the SDK "
        "decrypts what it writes, for payload sizes 0,1,15,16,17,1000.",
-  note="Partial: the JSON model covers ASCII key ids (non-ASCII / invalid UTF-8 are outside it); a JSON parser round-trip is not proved (the reference codec's parser is run instead); Java/C# are represented by the documentation-side codec; "
+  note="Partial: the JSON model covers ASCII key ids (non-ASCII / invalid UTF-8 are outside it); the proved reader accepts the printer's layout only (field order, no white space) and is also run on the SDK's bytes in the comparison; the sidecar's wire records are checked across key rotations on open streams; Java/C# are represented by the documentation-side codec; "
        "the gRPC message mapping is exercised end to end by the C19 harness.",
-  technique="Coq proof (base64/layout/id lemmas) + byte-for-byte differential against a documented-shape printer + two-way exchange with a reference codec", design="6/C18")
+  technique="Coq proof (base64/layout/id lemmas, reader/printer round trip) + byte-for-byte differential against a documented-shape printer + two-way exchange with a reference codec", design="6/C18")
 
 CHECKS["C08"] = dict(
   text="Coq theorem (counting invariant, induction over schedules): for ANY number of goroutines, ANY schedule and ANY set of entries evicted at each load (every policy, capacity >= 1) no goroutine ever uses a "
